@@ -201,7 +201,8 @@ theorem foldlM_NO {α β : Type} (f : β → α → Except OErr β) :
 names a track (true of every song that validates: `jump_target_exists`); a missing drum routine is
 the `InputError` of repository fix 0e6e685 (`OErr.missingDrum`). -/
 theorem analyzeStack_NO {song : Song} (hs : SongJumpsOK song) : NO (analyzeStack song) := by
-  rw [analyzeStack_eq]
+  intro e he
+  refine (?_ : NO (song.tracks.foldlM (asBody song) [])) e (analyzeStack_error he)
   apply foldlM_NO
   intro p hp m
   unfold asBody
